@@ -266,6 +266,8 @@ def r_apply(ctx, model):
         if not isinstance(df, DFV):
             raise AnalysisError("fill_cij is not applied to a table")
         cap["cols_in"] = dict(df.cols)
+        cap["nrows"] = df.nrows
+        cap["fills"] = cap.get("fills", 0) + 1
         out = DFV(df.nrows, {kk: sp.Symbol(f"FILLED_{kk}", real=True) for kk in SYMS21 if kk not in ("c14", "c15")})
         return out
 
@@ -280,6 +282,11 @@ def r_apply(ctx, model):
     ctx.check(ok, "fill_cij(table, **symmetry)", w, expected="fill_cij(df, system='cubic', ignore_rank=True)",
               found=f"{len(cap.get('args', []))} positional, kwargs {cap.get('kwargs')}",
               explanation="the symmetry settings are not handed to fill_cij as keyword arguments together with the table", key="apply.fill")
+    whole = cap.get("nrows") == sp.Symbol("NSEQ", positive=True, integer=True) and cap.get("fills") == 1
+    ctx.check(whole, "fill_cij is applied once, to the table of all volumes (one row per volume)", w, expected="one call with a table of NSEQ rows",
+              found=f"{cap.get('fills')} call(s) per sweep with a table of {cap.get('nrows')} row(s)",
+              explanation="the symmetry filling is applied to one volume's row at a time: 'omitted when below the drop tolerance at ALL volumes' and the consistency "
+                          "check become per-volume statements, so volumes can end up with different component sets", key="apply.whole-table")
     want_in = {k: sp.Symbol(f"CST_{k[1:]}", real=True) for k in supplied}
     ctx.check(cap.get("cols_in") == want_in, "table columns are 'cIJ' names of the keys with their values", w, expected=str(want_in),
               found=str(cap.get("cols_in")), explanation="static moduli are not tabulated under the Voigt names of their keys", key="apply.names")
